@@ -176,10 +176,19 @@ def damage_ops(r, path, original, other=None):
 CHECKED_BY_KEY = ["read", "copy", "hard_link", "reflink", "ropen"]
 
 
-def retrieval_ops(r, ids, key, sri_t, which=None):
-    """A set of checked retrievals of one entry through every entry point (both flavours)."""
+def retrieval_ops(r, ids, key, sri_t, which=None, pre=None):
+    """A set of checked retrievals of one entry through every entry point (both flavours).
+    `pre` (dict) collects destinations that are created beforehand, with their previous content."""
     ops = []
     dn = lambda: ids.new("d")
+
+    def dest():
+        d = dn()
+        if pre is not None and r.chance(0.3):
+            old = r.randbytes(r.pick([1, 40, 5000])) + b"OLD"
+            pre[f"out/{d}"] = old
+            ops.append(f"put out/{d} {hx(old)}")
+        return d
     for fl in ("s", "a"):
         ops.append(f"read {fl} c0 {hx(key)}")
         ops.append(f"read_hash {fl} c0 {sri_t}")
@@ -194,11 +203,14 @@ def retrieval_ops(r, ids, key, sri_t, which=None):
         ops.append(f"ropen_hash {fl} c0 {rid} {sri_t}")
         ops.append(f"rreadall {rid}")
         ops.append(f"rcheck {rid}")
-        for op in ("copy", "hard_link", "reflink"):
-            d = dn(); ops.append(f"{op} {fl} c0 {hx(key)} out/{d}"); ops.append(f"cat out/{d}"); ops.append(f"stat out/{d}")
-        for op in ("copy_hash", "reflink_hash"):
-            d = dn(); ops.append(f"{op} {fl} c0 {sri_t} out/{d}"); ops.append(f"cat out/{d}"); ops.append(f"stat out/{d}")
-    d = dn(); ops.append(f"hard_link_hash s c0 {sri_t} out/{d}"); ops.append(f"cat out/{d}"); ops.append(f"stat out/{d}")
+        for op in ("copy", "copy_unchecked", "hard_link", "reflink"):
+            d = dest(); ops.append(f"{op} {fl} c0 {hx(key)} out/{d}"); ops.append(f"cat out/{d}"); ops.append(f"stat out/{d}")
+        for op in ("copy_hash", "copy_hash_unchecked", "reflink_hash"):
+            d = dest(); ops.append(f"{op} {fl} c0 {sri_t} out/{d}"); ops.append(f"cat out/{d}"); ops.append(f"stat out/{d}")
+    for op in ("hard_link_hash", "hard_link_unchecked"):
+        d = dest()
+        arg = sri_t if op == "hard_link_hash" else hx(key)
+        ops.append(f"{op} s c0 {arg} out/{d}"); ops.append(f"cat out/{d}"); ops.append(f"stat out/{d}")
     return ops
 
 
@@ -222,8 +234,10 @@ def gen_damage_programs(r, n, big=0.02):
         else:
             dmg, desc = [], "pristine"
         ops += dmg
-        ops += retrieval_ops(r, ids, k1, sri_tok(algo, d1))
-        progs.append(Program(f"damage{i}", ops, tags={"algo": algo, "data": d1, "damage": desc, "key": k1}))
+        pre = {}
+        ops += retrieval_ops(r, ids, k1, sri_tok(algo, d1), pre=pre)
+        progs.append(Program(f"damage{i}", ops, tags={"algo": algo, "data": d1, "damage": desc, "key": k1, "pre": pre,
+                                                       "damaged": bool(dmg)}))
     return progs
 
 
@@ -252,19 +266,28 @@ def mon_checked_retrieval(rr):
             if streams[t[1]] != data:
                 out.append(Failure("wrong_bytes", i, "streamed read + check succeeded on bytes that are not the stored data",
                                    sig={"op": "rcheck"}))
-        elif name in ("copy", "copy_hash", "hard_link", "hard_link_hash", "reflink", "reflink_hash"):
+        elif name in ("copy", "copy_hash", "hard_link", "hard_link_hash", "reflink", "reflink_hash",
+                      "copy_unchecked", "copy_hash_unchecked", "hard_link_unchecked"):
             last_extract = (name, t[1], rt, t[-1])
         elif name == "cat" and last_extract and last_extract[3] == t[1]:
-            ename, efl, ert, _ = last_extract
-            if ert[0] == "ok":
+            ename, efl, ert, edest = last_extract
+            old = rr.prog.tags.get("pre", {}).get(edest)
+            unchecked = ename.endswith("unchecked")
+            if ert[0] == "ok" and unchecked:
+                # an unchecked extraction of pristine content must deliver the stored bytes too (C18);
+                # of damaged content it delivers whatever is there
+                if not rr.prog.tags.get("damaged") and (rt[0] != "ok" or unhx(rt[1]) != data):
+                    out.append(Failure("wrong_bytes", i, f"{ename} succeeded on pristine content but the destination does not hold the stored data",
+                                       sig={"op": ename, "flavour_tok": efl}))
+            elif ert[0] == "ok":
                 if rt[0] != "ok" or unhx(rt[1]) != data:
                     out.append(Failure("wrong_bytes", i, f"{ename} succeeded but the destination does not hold the stored data",
                                        sig={"op": ename, "flavour_tok": efl}))
                 if ename.startswith("copy") and len(ert) > 1 and int(ert[1]) != len(data):
                     out.append(Failure("wrong_count", i, f"{ename} returned {ert[1]} for {len(data)} bytes", sig={"op": ename}))
             elif ert[:2] == ["err", "integrity"]:
-                # C18: a failed check leaves nothing (the destination did not exist before)
-                if rt[0] == "ok":
+                # C18: a failed check leaves nothing behind (a destination that existed keeps its old bytes)
+                if rt[0] == "ok" and (old is None or unhx(rt[1]) != old):
                     out.append(Failure("unverified_left_behind", i,
                                        f"{ename} failed verification but left a file at the destination",
                                        sig={"op": ename, "flavour_tok": efl}))
